@@ -69,6 +69,10 @@ subscript assignment: all refused)
       x = [e1, ..., en] (a fresh list, only as a whole right-hand side) ; x[i] = e for such a
       local (`List.set` behind the IndexError test).  A list/bytearray is never copied from name
       to name and never passed to a call, so there is no aliasing; strings are immutable.
+    float(e) * TABLE[i]                    TABLE a module-level name bound exactly once, to a list literal:
+                                           floating point is NOT interpreted; the product (together with the
+                                           IndexError of the lookup) is the symbolic value
+                                           `Py.FloatTimesTable.mk "TABLE" e i`, usable only as a return value
   Stream reads, calls and the raise-tests are hoisted in evaluation order in front of the
   statement; they are refused inside `and`/`or` operands after the first and inside conditional
   expressions, where Python would evaluate them conditionally.
@@ -80,6 +84,7 @@ import sys
 T_INT, T_BOOL, T_BYTES = "Int", "Bool", "List Int"
 T_STR, T_LIST = "Py.Str", "Py.IntList"      # abbreviations of `List Int` (code points / elements), Model/PyInt.lean
 SEQ = (T_BYTES, T_STR, T_LIST)
+T_FTAB = "Py.FloatTimesTable"              # the uninterpreted product float(e) * TABLE[i]
 LEAN_KEYWORDS = {"end", "at", "by", "do", "from", "fun", "have", "in", "let", "match", "then", "else", "if", "show",
                  "with", "where", "open", "def", "theorem", "example", "instance", "structure", "class", "namespace",
                  "section", "variable", "universe", "import", "mutual", "return", "for", "unless", "try", "catch",
@@ -249,6 +254,16 @@ class FuncTranslator:
         pre.append(("guard", c))
 
     def binop(self, node, left, op, right, env, pre, hoist):
+        if (isinstance(op, ast.Mult) and isinstance(left, ast.Call) and isinstance(left.func, ast.Name)
+                and left.func.id == "float" and "float" not in env.d and len(left.args) == 1 and not left.keywords
+                and isinstance(right, ast.Subscript) and isinstance(right.value, ast.Name)
+                and right.value.id not in env.d):
+            # float(e) * TABLE[i], TABLE a module-level list literal: floats are not interpreted, the product
+            # (with the IndexError of the lookup) is returned as the symbolic value Py.FloatTimesTable
+            self.mod.require_table(node, right.value.id)
+            e = self.int_expr(left.args[0], env, pre, hoist)
+            i = self.int_expr(right.slice, env, pre, hoist)
+            return f'(Py.FloatTimesTable.mk "{right.value.id}" {e} {i})', T_FTAB
         a, ta = self.expr(left, env, pre, hoist)
         if ta in SEQ:
             b, tb = self.expr(right, env, pre, hoist)
@@ -635,6 +650,27 @@ class Module:
         if len(fs) != 1:
             raise Unsupported(self.tree, f"function {spec.name}: {len(fs)} definitions")
         return fs[0]
+
+    def require_table(self, node, name):
+        """`name` is bound exactly once in the module, at top level, to a list literal"""
+        binds = 0
+        for n in ast.walk(self.tree):
+            if isinstance(n, ast.Name) and n.id == name and not isinstance(n.ctx, ast.Load):
+                binds += 1
+            elif isinstance(n, (ast.FunctionDef, ast.AsyncFunctionDef, ast.ClassDef)) and n.name == name:
+                binds += 1
+            elif isinstance(n, (ast.Global, ast.Nonlocal)) and name in n.names:
+                binds += 1
+            elif isinstance(n, ast.alias) and n.name != "*" and (n.asname or n.name.split(".")[0]) == name:
+                binds += 1
+            elif isinstance(n, ast.ImportFrom) and any(a.name == "*" for a in n.names) \
+                    and any(isinstance(t, ast.Assign) and any(isinstance(x, ast.Name) and x.id == name for x in t.targets)
+                            and t.lineno < n.lineno for t in self.tree.body):
+                binds += 1                      # a star import AFTER the assignment could rebind the name
+        top = [n for n in self.tree.body if isinstance(n, ast.Assign) and len(n.targets) == 1
+               and isinstance(n.targets[0], ast.Name) and n.targets[0].id == name and isinstance(n.value, ast.List)]
+        if len(top) != 1 or binds != 1:
+            raise Unsupported(node, f"{name} is not a module-level list literal bound exactly once")
 
     def require_get_byte(self, node):
         if self.get_byte_checked:
